@@ -319,6 +319,9 @@ pub struct FactoryShared {
     pub calls: AtomicUsize,
     pub enc: Option<RefEncoder>,
     pub sink: std::sync::Mutex<Vec<LlrRecord>>,
+    /// LLR scale of the first frame decoded in the run, and the build point of its decoder: the
+    /// reference against which every later frame is attributed to an Eb/N0 point
+    pub scale_ref: std::sync::Mutex<Option<(f64, usize)>>,
 }
 
 #[derive(Clone)]
@@ -347,7 +350,7 @@ impl DecoderFactory for SimFactory {
             }
             _ => None,
         };
-        Box::new(SimDecoder { sh: self.0.clone(), e, w, j: 0, first_scale: None, inner, h })
+        Box::new(SimDecoder { sh: self.0.clone(), e, w, j: 0, inner, h })
     }
 }
 
@@ -357,7 +360,6 @@ pub struct SimDecoder {
     w: usize,
     j: u64,
     /// LLR scale (~ 1/sigma^2) of the first frame this decoder saw
-    first_scale: Option<f64>,
     inner: Option<(DecoderImplementation, Box<dyn LdpcDecoder>)>,
     h: SparseMatrix,
 }
@@ -427,26 +429,36 @@ impl LdpcDecoder for SimDecoder {
         // scripted and genie decoders, whose Eb/N0 values are far above the noise and far apart.
         let e = if matches!(cfg.factory, FactoryKind::Script | FactoryKind::Genie) {
             let e_build = e;
-            let e_tag = match (llr_scale(cfg, llrs), self.first_scale) {
-                (Some(m), None) => {
-                    self.first_scale = Some(m);
-                    e_build
-                }
-                (Some(m), Some(first)) => {
-                    let l = (m / first).ln();
-                    let base = f64::from(cfg.ebn0s_db[e_build.min(cfg.ebn0s_db.len() - 1)]);
-                    let mut best = e_build;
-                    let mut best_d = f64::INFINITY;
-                    for (i, &x) in cfg.ebn0s_db.iter().enumerate() {
-                        let d = (l - 0.1 * std::f64::consts::LN_10 * (f64::from(x) - base)).abs();
-                        if d < best_d {
-                            best_d = d;
-                            best = i;
+            // The reference is the first frame decoded *in the run* (by any decoder), taken to be
+            // of the build point of its decoder. (It used to be the first frame of *this*
+            // decoder; rewrite C13-p5-2 recycles decoders across points, and a decoder built
+            // for point 0 that decodes its first frame during point 1 then mis-tagged all its
+            // frames.)
+            let e_tag = match llr_scale(cfg, llrs) {
+                Some(m) => {
+                    let mut r = self.sh.scale_ref.lock().unwrap();
+                    match *r {
+                        None => {
+                            *r = Some((m, e_build));
+                            e_build
+                        }
+                        Some((first, e_ref)) => {
+                            let l = (m / first).ln();
+                            let base = f64::from(cfg.ebn0s_db[e_ref.min(cfg.ebn0s_db.len() - 1)]);
+                            let mut best = e_build;
+                            let mut best_d = f64::INFINITY;
+                            for (i, &x) in cfg.ebn0s_db.iter().enumerate() {
+                                let d = (l - 0.1 * std::f64::consts::LN_10 * (f64::from(x) - base)).abs();
+                                if d < best_d {
+                                    best_d = d;
+                                    best = i;
+                                }
+                            }
+                            best
                         }
                     }
-                    best
                 }
-                _ => e_build,
+                None => e_build,
             };
             if e_tag != e_build {
                 dstsim::emit("frame-of-other-point", vec![e_build as i64, w as i64, j as i64, e_tag as i64]);
@@ -596,6 +608,7 @@ pub fn run_one(cfg: &BerCfg) -> BerObs {
         calls: AtomicUsize::new(0),
         enc: RefEncoder::new(&cfg.h),
         sink: std::sync::Mutex::new(Vec::new()),
+        scale_ref: std::sync::Mutex::new(None),
     });
     let shared2 = shared.clone();
     let outcome = dstsim::run(sim_config(cfg), move || {
@@ -1234,6 +1247,20 @@ fn oracle_c13_reading(cfg: &BerCfg, obs: &BerObs) -> (Vec<Violation>, OracleStat
         return (v, st);
     }
     let hist = extract_history(cfg, &out.events, root.report_chan);
+    // debugging aid: VERIF_DEBUG_HIST=1 prints what the event log says about every point
+    if std::env::var("VERIF_DEBUG_HIST").is_ok() {
+        for (e, p) in hist.points.iter().enumerate() {
+            eprintln!(
+                "[hist] point {}: received {:?}, decoded per task {:?}, untransported {}, unconsumed {}",
+                e,
+                p.recvs.iter().map(|key| (key.0, key.1, p.frames[key])).collect::<Vec<_>>(),
+                p.decoded,
+                p.untransported,
+                p.unconsumed
+            );
+        }
+        eprintln!("[hist] control messages {}, discarded frames {}, joins {:?}, recv_after_err {}, batch reading {}", hist.control_msgs, hist.discarded_frames, hist.joins, hist.recv_after_err, BATCH_READING.with(|b| b.get()));
+    }
     if !hist.anomalies.is_empty() {
         // the decoder was handed another matrix, length or iteration limit than configured:
         // that is the chain's business (C12), C13 says nothing about this run — except that a
